@@ -368,7 +368,7 @@ func corpusScale(c *vrep.Ctx, prop string) {
 // markers) against small corpora.
 func c03Bytes(c *vrep.Ctx) {
 	// incl. words glued by character references that stand for white space (one input word each)
-	syms := []string{"aa", "bb", "cc", "zqoov", "\n", "\r\n", "-\n", " ", "copyright 2000 foo\n", "2020-01-02\n", "1.", "(c)", "aa-", "aa&#32;bb&nbsp;cc", "aa&#x20;bb"}
+	syms := []string{"aa", "bb", "cc", "zqoov", "\n", "\r\n", "-\n", " ", "copyright 2000 foo\n", "2020-01-02\n", "1.", "(c)", "aa-", "aa&#32;bb&nbsp;cc", "aa&#x20;bb", strings.Repeat("x", 4097), strings.Repeat("y", 9000)}
 	maxLen := c.Pick(4, 5)
 	ts := []float64{0.05, 0.5, 0.8, 1.0}
 	corp := []int{0, 1, 8, 9, 11}
@@ -378,13 +378,24 @@ func c03Bytes(c *vrep.Ctx) {
 			cls = append(cls, vSmallClassifier(ci, t))
 		}
 	}
-	c.R.Rule = fmt.Sprintf("all strings of <=%d symbols over %q (symbols separated by a blank unless they end in a newline) x %d small corpora x thresholds %v; C03 well-formedness oracle; non-trivial = cases with at least one match (Copyright included)", maxLen, syms, len(corp), ts)
+	var symNames []string
+	for _, sy := range syms {
+		if len(sy) > 100 {
+			sy = fmt.Sprintf("<%d-letter word>", len(sy))
+		}
+		symNames = append(symNames, sy)
+	}
+	c.R.Rule = fmt.Sprintf("all strings of <=%d symbols over %q (symbols separated by a blank unless they end in a newline) x %d small corpora x thresholds %v; C03 well-formedness oracle; non-trivial = cases with at least one match (Copyright included)", maxLen, symNames, len(corp), ts)
 	c.Bound("max_symbols", maxLen)
 	body := func(r *vx.Run) {
 		n := r.Choose(maxLen+1, "len")
 		var sb strings.Builder
 		for i := 0; i < n; i++ {
-			s := syms[r.Choose(len(syms), "sym")]
+			k := len(syms)
+			if i > 0 {
+				k -= 2 // the two very long words only open a text
+			}
+			s := syms[r.Choose(k, "sym")]
 			sb.WriteString(s)
 			if !strings.HasSuffix(s, "\n") && s != " " {
 				sb.WriteByte(' ')
